@@ -36,6 +36,7 @@ var redirect = map[string]struct {
 	"sync/atomic":  {"vatomic", set("Int32", "Int64", "Uint32", "Uint64", "Bool", "Pointer", "Value", "AddInt32", "AddInt64", "AddUint32", "AddUint64", "LoadInt32", "LoadInt64", "LoadUint32", "LoadUint64", "StoreInt32", "StoreInt64", "StoreUint32", "StoreUint64", "SwapInt32", "SwapInt64", "CompareAndSwapInt32", "CompareAndSwapInt64", "CompareAndSwapUint32", "CompareAndSwapUint64")},
 	"time":         {"vtime", set("Now", "Since", "Until", "Sleep", "NewTimer", "NewTicker", "AfterFunc", "After", "Tick", "Timer", "Ticker")},
 	"context":      {"vctx", set("WithTimeout", "WithDeadline", "AfterFunc")},
+	"os":           {"vos", set("WriteFile", "Remove", "RemoveAll", "Rename", "MkdirAll", "Mkdir", "Chmod")},
 	"math/rand":    {"vrand", set("Intn", "Int63n", "Int31n", "Float64")},
 	"math/rand/v2": {"vrand", set("IntN", "Int64N", "Int32N", "Uint64N", "Float64")},
 }
